@@ -15,6 +15,10 @@ var fixedOps = []string{
 	"spec 3 list tuple 1 int ifs 2 nil ifs 1 i int 1",
 	"spec 4 bigint big 9223372036854775808", "spec 4 counter big -9223372036854775809", "cls 4 bigint big 9223372036854775808",
 	"spec 4 varint big 9223372036854775808", "spec 4 varint big -9223372036854775809", "spec 4 varint big 9223372036854775807",
+	// KF-C12-8 behind a pointer (C12_cex_ptr_nil_v2): *interface{} holding nil as a map value, protocol 2 (excluded) and 3 (clean, -1)
+	"enc 2 map int int map k int ptr iface 1 i int 1 ptr nil", "cls 2 map int int map k int ptr iface 1 i int 1 ptr nil",
+	"enc 3 map int int map k int ptr iface 1 i int 1 ptr nil", "cls 3 map int int map k int ptr iface 1 i int 1 ptr nil",
+	"spec 3 map int int map k int ptr iface 1 i int 1 ptr nil",
 	// D9 unsigned wrap
 	"enc 4 smallint i uint16 65535", "cls 4 smallint i uint16 65535",
 	"enc 4 smallint i uint16 32767", "spec 4 smallint i uint16 32767",
